@@ -264,55 +264,69 @@ func ruleSweepStop(c *Ctx) {
 				if cond == nil {
 					continue
 				}
-				future := false
+				// the test compares an entry's deadline with now; in whichever form it is written, one successor
+				// is the "deadline still in the future" side and the other the "due" side
+				recognised, futureOnTrue := false, false
+				isExpiresCall := func(x ast.Expr) bool {
+					call, ok := ast.Unparen(x).(*ast.CallExpr)
+					if !ok {
+						return false
+					}
+					f := callee(finfo, call)
+					return f != nil && f.Name() == "Expires"
+				}
 				switch e := ast.Unparen(cond).(type) {
 				case *ast.BinaryExpr:
-					// nano < o.Expires()   (nano derived from now)
-					if e.Op == token.LSS {
-						if call, ok := ast.Unparen(e.Y).(*ast.CallExpr); ok {
-							if f := callee(finfo, call); f != nil && f.Name() == "Expires" {
-								future = derivedFrom(finfo, fn, e.X, nowObj)
-							}
-						}
-					}
-					if e.Op == token.GTR {
-						if call, ok := ast.Unparen(e.X).(*ast.CallExpr); ok {
-							if f := callee(finfo, call); f != nil && f.Name() == "Expires" {
-								future = derivedFrom(finfo, fn, e.Y, nowObj)
-							}
-						}
+					switch {
+					case (e.Op == token.LSS || e.Op == token.LEQ) && isExpiresCall(e.Y) && derivedFrom(finfo, fn, e.X, nowObj):
+						// now < deadline (future) / now <= deadline (future)
+						recognised, futureOnTrue = true, true
+					case (e.Op == token.GTR || e.Op == token.GEQ) && isExpiresCall(e.X) && derivedFrom(finfo, fn, e.Y, nowObj):
+						// deadline > now
+						recognised, futureOnTrue = true, true
+					case (e.Op == token.LEQ || e.Op == token.LSS) && isExpiresCall(e.X) && derivedFrom(finfo, fn, e.Y, nowObj):
+						// deadline <= now: due
+						recognised, futureOnTrue = true, false
+					case (e.Op == token.GEQ || e.Op == token.GTR) && isExpiresCall(e.Y) && derivedFrom(finfo, fn, e.X, nowObj):
+						// now >= deadline: due
+						recognised, futureOnTrue = true, false
 					}
 				case *ast.CallExpr:
-					// h.expires.After(now)
-					if f := callee(finfo, e); f != nil && f.Name() == "After" && len(e.Args) == 1 {
-						future = derivedFrom(finfo, fn, e.Args[0], nowObj)
+					// h.expires.After(now): future; h.expires.Before(now): due
+					if f := callee(finfo, e); f != nil && len(e.Args) == 1 && derivedFrom(finfo, fn, e.Args[0], nowObj) {
+						switch f.Name() {
+						case "After":
+							recognised, futureOnTrue = true, true
+						case "Before":
+							recognised, futureOnTrue = true, false
+						}
 					}
 				}
-				if !future {
+				if !recognised {
 					continue
 				}
-				// true edge → return false, no append reachable
-				tb := b.Succs[0]
-				retFalse := false
-				for _, n := range tb.Nodes {
-					if r, ok := n.(*ast.ReturnStmt); ok && len(r.Results) == 1 && boolConst(finfo, r.Results[0]) == '0' {
-						retFalse = true
-					}
+				futureSucc, dueSucc := b.Succs[0], b.Succs[1]
+				if !futureOnTrue {
+					futureSucc, dueSucc = dueSucc, futureSucc
 				}
-				okStop = retFalse
-				// false edge reaches the append and returns true
-				reach, _ := lfg.Reach(PathQuery{From: Loc{b, len(b.Nodes) - 1, nil}, Target: func(l Loc) bool {
-					hit := false
-					inspectNoLit(l.Node, func(y ast.Node) bool {
-						if call, ok := y.(*ast.CallExpr); ok {
-							if id, ok := ast.Unparen(call.Fun).(*ast.Ident); ok && id.Name == "append" {
-								hit = true
-							}
-						}
-						return true
-					})
-					return hit
-				}})
+				isAppend := func(l Loc) bool {
+					call, ok := l.Node.(*ast.CallExpr)
+					if !ok {
+						return false
+					}
+					id, ok := ast.Unparen(call.Fun).(*ast.Ident)
+					return ok && id.Name == "append"
+				}
+				isContinue := func(l Loc) bool {
+					r, ok := l.Node.(*ast.ReturnStmt)
+					return ok && (len(r.Results) != 1 || boolConst(finfo, r.Results[0]) != '0')
+				}
+				// future side: nothing is collected and the scan stops (every return is `false`)
+				collectsFuture, _ := reachBlockAvoiding2(lfg, futureSucc, isAppend)
+				continuesFuture, _ := reachBlockAvoiding2(lfg, futureSucc, isContinue)
+				okStop = !collectsFuture && !continuesFuture
+				// due side: the entry is collected
+				reach, _ := reachBlockAvoiding2(lfg, dueSucc, isAppend)
 				okCollect = reach
 			}
 			c.check(okStop && okCollect, name+"/stop-at-first-future-deadline", lit.Pos(),
